@@ -87,7 +87,7 @@ func genMsgSize(rt *rapid.T, budget int, thorough bool) int {
 		s = rapid.IntRange(140001, 1<<20).Draw(rt, "msgSize")
 	default:
 		hi := 3 << 20
-		if thorough {
+		if thorough && !raceEnabled {
 			hi = 6 << 20
 		}
 		s = rapid.IntRange(1<<20, hi).Draw(rt, "msgSize")
@@ -106,6 +106,9 @@ func genC10Case(rt *rapid.T, thorough bool) *c10Case {
 	max := 6 << 20
 	if thorough {
 		max = 14 << 20
+	}
+	if raceEnabled {
+		max = 5 << 20
 	}
 	c.Volume = volumeFor(max, c.PlanA.Chunks, c.PlanB.Chunks)
 	budget := c.Volume
@@ -202,7 +205,7 @@ var c10Failed atomic.Bool
 
 func c10Patience(volume int) time.Duration {
 	if c10Failed.Load() {
-		return 5 * time.Second
+		return 15 * time.Second
 	}
 	// a healthy case moves its volume in well under a second
 	return 40*time.Second + time.Duration(volume/(1<<20))*2*time.Second
@@ -462,6 +465,9 @@ func genC10BFCase(rt *rapid.T, thorough bool) *c10BFCase {
 	max := 8 << 20
 	if thorough {
 		max = 16 << 20
+	}
+	if raceEnabled {
+		max = 8 << 20
 	}
 	c.Volume = volumeFor(max, c.PlanA.Chunks, c.PlanB.Chunks)
 	budget := c.Volume
